@@ -19,3 +19,6 @@ for nm in ("lpush", "sadd", "hset", "lpop", "lrange", "hdel"):
     E3("c03_wrongtype_" + nm, "%s against a string key: WRONGTYPE, dataset unchanged, watchers not notified" % nm.upper(), ["StorageEngine::" + nm], "2-byte string pre-state", tier="quick" if nm in ("lpush", "hset") else "thorough")
 E3("c03_sdiff_missing_middle", "SDIFF a m b with a = {x,y} symbolic, m missing, b = {z} symbolic: a missing key in the middle is an empty set and later keys are still subtracted", ["StorageEngine::sdiff"], "3 symbolic one-byte members over 2 sets + 1 missing key; unwind 6", props=("C03",))
 # c03_lrem_minus1 / c03_lrem_plus1: CBMC out of memory even at 45 GB on the unchanged tree (drain(..).rev() + push_front) - LREM stays outside the claim
+E3("c03_sinter_two", "SINTER a b with a = {x,y}, b = {z} symbolic (z may equal x or y): exactly the common members", ["StorageEngine::sinter"], "3 symbolic one-byte members; unwind 6", props=("C03",), tier="thorough")
+E3("c03_sinter_missing", "SINTER a m b with m missing: empty", ["StorageEngine::sinter"], "as above", props=("C03",), tier="thorough")
+E3("c03_sunion_missing", "SUNION a m b with m missing: every member of every set once", ["StorageEngine::sunion"], "as above", props=("C03",), tier="thorough")
